@@ -41,7 +41,9 @@ def unit_step_clock(twin=False):
     n = 0
     for rel, q in ((MS, "Phreeqc::reactions"), (RC, "Phreeqc::run_as_cells")):
         fn = A.find_function(rel, q)
-        ifs = find_nodes(fn, rel, lambda t, x: text_of(rel, x["inner"][0]) == "incremental_reactions==TRUE" and "rate_sim_time" in t, kinds=("IfStmt",))
+        # located by effect (the branch that advances the start of the step clock), not by the condition, so a changed condition is decided
+        ifs = find_nodes(fn, rel, lambda t, x: len(x["inner"]) >= 2 and "rate_sim_time_start+=" in text_of(rel, x["inner"][1]) and not any(
+            y is not x and y.get("kind") == "IfStmt" and len(y["inner"]) >= 2 and "rate_sim_time_start+=" in text_of(rel, y["inner"][1]) for y in A.walk(x["inner"][1])), kinds=("IfStmt",))
         if not ifs:
             r.add("%s.clock_update_present" % q.split("::")[-1], FAILED, "syntactic", 0, ""); continue
         for j, st in enumerate(ifs):
@@ -86,7 +88,7 @@ def unit_reactant_nonnegative(twin=False):
     q = "Phreeqc::calc_final_kinetic_reaction"
     fn = A.find_function(KIN, q)
     r = U.new_unit("C12.kinetics.reacted_moles_capped_at_amount_present", KIN, q, fn)
-    cap = find_nodes(fn, KIN, lambda t, x: text_of(KIN, x["inner"][0]).startswith("kinetics_comp_ptr->Get_moles()>"), kinds=("IfStmt",))
+    cap = find_nodes(fn, KIN, lambda t, x: len(x["inner"]) >= 2 and "kinetics_comp_ptr->Set_moles(" in text_of(KIN, x["inner"][1]), kinds=("IfStmt",))      # by effect
     if len(cap) != 1:
         raise Undecided("cap statement of calc_final_kinetic_reaction not found (%d)" % len(cap))
     c = ctx(functional=("Get_moles",))
